@@ -437,6 +437,45 @@ def run(chk, repo):
                          and unparse(n._parent.func) in ("hasattr", "getattr", "setattr"))]
         chk.decide(not bare, "C05.hash", where_, "self used only through its attributes",
                    why="hash uses the object itself (identity), equal filters hash differently", node=h)
+        # equality does not look at the order in which terms were created: neither may the hash.  Terms enter it in
+        # sorted order (Poly.terms() sorts integer powers unless told not to) or through an unordered container
+        leaks = []
+        todo_, seen_ = [h], set()
+        while todo_:
+            f_ = todo_.pop()
+            if id(f_) in seen_:
+                continue
+            seen_.add(id(f_))
+            for n in ast.walk(f_):
+                if isinstance(n, ast.Attribute) and isinstance(n.value, ast.Name) and n.value.id == "self" and n.attr in props:
+                    todo_.append(props[n.attr])
+                if isinstance(n, ast.Call) and isinstance(n.func, ast.Attribute) and n.func.attr == "terms":
+                    unsorted = any(k.arg == "sort" and isinstance(k.value, ast.Constant) and k.value.value is False for k in n.keywords) \
+                        or (n.args and isinstance(n.args[0], ast.Constant) and n.args[0].value is False)
+                    if unsorted:
+                        leaks.append(n)
+                raw = None
+                if isinstance(n, ast.Call) and unparse(n.func) in ("iteritems", "iterkeys", "itervalues", "iter", "list", "tuple") \
+                        and n.args and unparse(n.args[0]).endswith("._data"):
+                    raw = n
+                if isinstance(n, ast.Call) and isinstance(n.func, ast.Attribute) and n.func.attr in ("items", "keys", "values") \
+                        and unparse(n.func.value).endswith("._data"):
+                    raw = n
+                if isinstance(n, (ast.For, ast.comprehension)) and unparse(n.iter).endswith("._data"):
+                    raw = n.iter
+                if raw is not None:
+                    p_ = getattr(raw, "_parent", None)
+                    unordered = False
+                    while p_ is not None and p_ is not f_:
+                        if isinstance(p_, ast.Call) and unparse(p_.func) in ("frozenset", "set", "sorted", "sum", "len", "max", "min"):
+                            unordered = True
+                            break
+                        p_ = getattr(p_, "_parent", None)
+                    if not unordered:
+                        leaks.append(raw)
+        chk.decide(not leaks, "C05.hash", where_, "terms enter the hash sorted or through an unordered container",
+                   why="%s walks the terms in creation order: two equal objects built in a different order hash differently"
+                       % (short(leaks[0]) if leaks else "-"), node=leaks[0] if leaks else h)
         nh += 1
     chk.floor("C05.hash", nh, 2, "__hash__ methods")
 
